@@ -140,6 +140,33 @@ func (c *caseRun) takeState() state {
 			groups[k] = true
 		}
 	}
+	// every config.worktree file of the repository that Git did not list for this work tree: the other
+	// work tree's file, or a file Git ignores because extensions.worktreeConfig is off. Nothing may
+	// replace a custom value there either (scope name scopeOtherWt; never the target of a command).
+	listed := map[string]bool{}
+	for k := range groups {
+		if p := strings.SplitN(k, "\x00", 2); len(p) == 2 && strings.HasPrefix(p[1], "file:") {
+			f := strings.TrimPrefix(p[1], "file:")
+			if !filepath.IsAbs(f) {
+				f = filepath.Join(c.workDir, f)
+			}
+			listed[filepath.Clean(f)] = true
+		}
+	}
+	for _, f := range []string{filepath.Join(c.repo, ".git", "config.worktree"), filepath.Join(c.repo, ".git", "worktrees", "wt", "config.worktree")} {
+		if _, err := os.Stat(f); err != nil || listed[filepath.Clean(f)] {
+			continue
+		}
+		r3 := c.env.Git(c.workDir, "config", "--file", f, "--list", "--show-origin", "-z")
+		if !r3.OK() {
+			panic(fmt.Sprintf("snapshot: git config --file %s failed: %s", f, r3))
+		}
+		e3, g3 := parseCfgZ(r3.Stdout, scopeOtherWt)
+		ents = append(ents, e3...)
+		for k := range g3 {
+			groups[k] = true
+		}
+	}
 	st.Cfg, st.Groups = ents, len(groups)
 	return st
 }
